@@ -40,7 +40,7 @@ DSIS_CMP = {"eq": ("__eq__", lambda x, y: x == y), "ne": ("__ne__", lambda x, y:
             "UGT": ("UGT", z3.UGT), "UGE": ("UGE", z3.UGE)}
 DSIS_UN = {"neg": ("__neg__", lambda x: -x, "neg"), "invert": ("__invert__", lambda x: ~x, "not")}
 DSIS_SET = ["union", "union_si", "intersection", "intersection_si", "widen"]
-DSIS_QUERY = ["eval", "cardinality", "minmax", "collapse"]
+DSIS_QUERY = ["eval", "eval2", "eval3", "cardinality", "minmax", "collapse"]
 VS_BIN = {"add": ("__add__", lambda x, y: x + y, "add"), "radd": ("__radd__", lambda x, y: y + x, "add"), "sub": ("__sub__", lambda x, y: x - y, "sub"),
           "mod": ("__mod__", lambda x, y: z3.URem(x, y), "mod"), "and": ("__and__", lambda x, y: x & y, "and"),
           "lshr": ("LShR", lambda x, y: z3.LShR(x, y), "lshr"), "concat": ("concat", lambda x, y: z3.Concat(x, y), "concat")}
@@ -246,6 +246,8 @@ def run_dsis(oid, params, tier):
                     return a.widen(b)
                 if op == "eval":
                     return a.eval((1 << n) + 1)
+                if op in ("eval2", "eval3"):
+                    return a.eval(int(op[4:]))
                 if op == "cardinality":
                     return a.cardinality
                 if op == "minmax":
@@ -313,6 +315,18 @@ def run_dsis(oid, params, tier):
                 vals = [vsaglue.low(v, n) for v in r]
                 fails = [Fail("eval-nonmember", f"DSIS.eval returned a non-member: {r!r:.100}", z3.Or(*[z3.Not(z3.substitute(mem_a, (x, v))) for v in vals]) if vals else z3.BoolVal(False))]
                 fails.append(Fail("eval-missing", f"DSIS.eval(2^n+1) = {r!r:.100} misses a member", z3.And(mem_a, *[x != v for v in vals])))
+                return fails
+            if op in ("eval2", "eval3"):
+                # eval(k) for a small k: only members, pairwise distinct, at most k, and fewer than k only when there are no more
+                k = int(op[4:])
+                vals = [vsaglue.low(v, n) for v in r]
+                fails = [Fail("eval-nonmember", f"DSIS.eval({k}) returned a non-member: {r!r:.100}", z3.Or(*[z3.Not(z3.substitute(mem_a, (x, v))) for v in vals]) if vals else z3.BoolVal(False))]
+                if len(vals) > k:
+                    fails.append(Fail("eval-count", f"DSIS.eval({k}) returned {len(vals)} values"))
+                if len(vals) >= 2:
+                    fails.append(Fail("eval-duplicate", f"DSIS.eval({k}) = {r!r:.100} lists a value twice", z3.Or(*[vals[i] == vals[j] for i in range(len(vals)) for j in range(i + 1, len(vals))])))
+                if len(vals) < k:
+                    fails.append(Fail("eval-short", f"DSIS.eval({k}) = {r!r:.100} has fewer than {k} values although the set has another member", z3.And(mem_a, *[x != v for v in vals])))
                 return fails
             if op == "cardinality":
                 # documented as an over-approximation: at least 1 for a non-empty set, and >= the number of distinct members is
@@ -757,6 +771,12 @@ def _replay_pinned(case, pin):
                 r = a.eval((1 << n) + 1)
                 got = {v & mask for v in r}
                 return {"violated": got != ma, "detail": f"eval = {r} members = {sorted(ma)}; {desc}"}
+            if op in ("eval2", "eval3"):
+                k = int(op[4:])
+                r = a.eval(k)
+                got = [v & mask for v in r]
+                bad = (not set(got) <= ma) or len(set(got)) != len(got) or len(got) != min(k, len(ma))
+                return {"violated": bad, "detail": f"eval({k}) = {r} members = {sorted(ma)}; {desc}"}
             if op == "cardinality":
                 return {"violated": a.cardinality < len(ma), "detail": f"cardinality {a.cardinality} < {len(ma)} members; {desc}"}
             if op == "minmax":
